@@ -82,7 +82,8 @@ func spellings(key []byte) []string {
 			mixed[i] += 'a' - 'A'
 		}
 	}
-	return []string{u, p, l, " \t" + string(mixed) + "\n"}
+	// (the first four keep their positions: several checks pick spellings by index)
+	return []string{u, p, l, " \t" + string(mixed) + "\n", strings.ToLower(p) + " \t\n", "\n" + p + "\n"}
 }
 
 var counterAlphabet = func() []uint64 {
